@@ -121,7 +121,9 @@ def gen_v6():
     base = v6_base_cases()
     for t, c in base:
         out.append((t, c))
-    scopes = ['', 'x', 'eth0', 'e' * 15, 'e' * 16, 'e' * 17]
+    # interface names as they occur: VLAN sub-interfaces (dot), bridges (dash), digits only
+    scopes = ['', 'x', 'eth0', 'e' * 15, 'e' * 16, 'e' * 17, '.', 'eth0.100', 'enp3s0.4094', 'br-int',
+              '1', 'a_b', 'wlan0:1', 'tap0123456789ab']
     for t, c in base:
         if c == NOFAIL or len(out) > 100000:
             continue
